@@ -552,7 +552,8 @@ def h_threads(ctx, directions=None):
 
     def shared():
         from joserfc.jwk import KeySet
-        sh = {(k, w): A.jkey(scen.key(k, w), "dict") for _, k, w, _ in T_OPS}
+        # the first ES256 key comes from its PEM file: its JWK view does not exist yet when the two threads start
+        sh = {(k, w): (A.jkey(scen.key(k, w), "dict") if (k, w) != ("P-256", 0) else A.jkey(scen.key(k, w), "pem", params={"use": "sig"})) for _, k, w, _ in T_OPS}
         sh["set"] = KeySet([A.jkey({**scen.key("oct32", i), "kid": kid_}, "dict") for i, kid_ in enumerate(["m", "c", "x", "a"])])
         return sh
 
@@ -567,10 +568,20 @@ def h_threads(ctx, directions=None):
 
     def export_set(sh):
         return {"export": call(lambda: [k.get("kid") for k in sh["set"].as_dict()["keys"]])}
-    menu = [op(s_) for s_ in T_OPS] + [("round trip HS256 through the shared key set (kid x)", via_set), ("export the shared key set", export_set)]
+    def export_pub(sh):
+        return {"export_pub": call(lambda: sh[("P-256", 0)].as_dict(private=False))}
+    menu = [op(s_) for s_ in T_OPS] + [("round trip HS256 through the shared key set (kid x)", via_set), ("export the shared key set", export_set),
+                                        ("export the public JWK of the (not yet used) ES256 key", export_pub)]
     judge0 = judge
 
     def judge(name, o, sh):  # noqa: F811
+        if "export_pub" in o:
+            r = o["export_pub"]
+            want = {**rjwk.public_of(scen.key("P-256", 0)), "use": "sig"}
+            got = {k_: v_ for k_, v_ in (r.value or {}).items() if k_ != "kid"} if r.ok else None
+            if got != want:
+                return ("the public JWK exported while the key is used for the first time is not the key's public JWK (a peer cannot verify with it)", f"{r.value!r} {r.exc!r}")
+            return None
         if "export" in o:
             r = o["export"]
             if not r.ok or sorted(r.value) != ["a", "c", "m", "x"]:
